@@ -323,6 +323,9 @@ def check(case, acc, tmp):
         acc.count('skipped:layout-not-applicable')
         return
     acc.trans += 1
+    if tuple(t.shape) != (len(t.ids(axis='observation')), len(t.ids())):
+        acc.count('skipped:incoherent-source-table')      # C05's business
+        return
     count_factors(acc, case, t)
     src = observe_source(t)
     before = O.content(t)
@@ -356,7 +359,7 @@ def check(case, acc, tmp):
                 r = load(ld, art)
             except Exception as e:
                 bad('reader-raised:%s:%s' % (ld, type(e).__name__),
-                    '%s raised %s: %s' % (ld, type(e).__name__, str(e)[:300]))
+                    '%s raised %s: %s' % (ld, type(e).__name__, str(e)[:300].replace(tmp, '<tmp>')))
                 continue
             acc.count('loader:' + ld)
             ck = O.content_key(r)
